@@ -62,7 +62,7 @@ def bi_read(df, asof = None, what = -1):
     if len(df):        
         if index_name is None:
             df.index.name = 'index'
-        gb = df.sort_values(_updated).groupby(df.index.name)
+        gb = df.sort_values(_updated, kind = 'stable').groupby(df.index.name) # rows sharing a stamp must stay in merge order
         res = gb.apply(_as_what(what)) ## since first and last return NON NAN VALUES, we need to override them
     else:
         res = df
@@ -284,7 +284,7 @@ def bi_merge(old_data, new_data, asof = 'now', existing_data = None):
     index_name = df.index.name
     if index_name is None:
         df.index.name = 'index'
-    gb = df.sort_values(_updated).groupby(df.index.name)
+    gb = df.sort_values(_updated, kind = 'stable').groupby(df.index.name) # rows sharing a stamp must stay in merge order
     res = pd.concat([_drop_repeats(d) for _, d in gb])
     res.index.name = index_name
     return res
